@@ -97,7 +97,7 @@ def run_one(m, scratch):
     os.makedirs(evd, exist_ok=True)
     env = dict(os.environ, GOFLAGS="-mod=mod", GOPROXY="off", GOSUMDB="off", GOTOOLCHAIN="local", GOWORK="off")
     r = subprocess.run([VCHECK, "-repo", REPO, "-verif", VERIF, "-prop", m["prop"], "-tier", "quick", "-overlay", ovf,
-                        "-evidence-dir", evd], stdout=subprocess.PIPE, stderr=subprocess.STDOUT, env=env, text=True)
+                        "-evidence-dir", evd], stdout=subprocess.PIPE, stderr=subprocess.STDOUT, env=env, text=True, errors="replace")
     keys = re.findall(r"key=(\S.*)$", r.stdout, re.M)
     res["exit"] = r.returncode
     res["violated"] = keys[:6]
